@@ -21,7 +21,6 @@ import (
 	"encoding/binary"
 	"fmt"
 	"runtime/debug"
-	"sort"
 	"strings"
 	"sync"
 	"sync/atomic"
@@ -713,7 +712,7 @@ func (e *c03Explorer) exploreImage1(w *c03Worker, h *c03Hist, opNames []string, 
 		if !e.second || !e.seen2.add(fmt.Sprintf("%s|%d", ikey, vi)) {
 			continue
 		}
-		e.exploreSecond(w, c, cy)
+		e.exploreSecond(w, c, cy, ikey)
 	}
 }
 
@@ -730,7 +729,7 @@ func (e *c03Explorer) count(cy *c03Cycle) {
 
 // exploreSecond: every crash point and torn length of the first
 // recovery+append cycle, then recover again.
-func (e *c03Explorer) exploreSecond(w *c03Worker, c c03Case, cy1 *c03Cycle) {
+func (e *c03Explorer) exploreSecond(w *c03Worker, c c03Case, cy1 *c03Cycle, ikey1 string) {
 	app2 := c03Concat(cy1.rec.recs, cy1.newRecs...)
 	fs1 := cy1.fs
 	n := fs1.LogLen()
@@ -764,7 +763,7 @@ func (e *c03Explorer) exploreSecond(w *c03Worker, c c03Case, cy1 *c03Cycle) {
 			cy2 := w.cycle(img, e.append2, 210)
 			e.count(cy2)
 			if torn2 {
-				e.r.Nontrivial(c.Tear1Key() + img.Key())
+				e.r.Nontrivial(ikey1 + "/" + img.Key())
 			}
 			if kind, _ := c03Match(app2, 0, must, cy2.rec.recs); kind != "" && cy2.rec.err == nil && cy2.rec.panicTxt == "" {
 				cy2.viol = append([]c03Viol{{kind, fmt.Sprintf("first recovery returned %s, then %s were appended (synced: %v); second recovery returned %s (%s)",
@@ -781,15 +780,6 @@ func (e *c03Explorer) exploreSecond(w *c03Worker, c c03Case, cy1 *c03Cycle) {
 			return true
 		})
 	})
-}
-
-func (c c03Case) Tear1Key() string {
-	ks := make([]string, 0, len(c.Tear1))
-	for p, n := range c.Tear1 {
-		ks = append(ks, fmt.Sprintf("%s:%d", p, n))
-	}
-	sort.Strings(ks)
-	return strings.Join(c.Ops, ",") + "@" + fmt.Sprint(c.K1) + strings.Join(ks, ",") + "|"
 }
 
 // runCase re-executes one replay case with full reporting.
